@@ -1,5 +1,6 @@
 import IbModel.Model.Closures
 import IbModel.Model.Planner
+import IbModel.Model.Combiners
 /-!
 # Programs: the named function library and the translation of builder calls to node chains
 
@@ -74,14 +75,24 @@ def BatchFn.eval : BatchFn → List Val → List Val
 
 /-! ## `Val`-level combiners used by the pipeline model (accumulators are `Val`s) -/
 
-def insertSorted (x : Val) : List Val → List Val
-  | [] => [x]
-  | y :: ys => if Val.le x y then x :: y :: ys else y :: insertSorted x ys
+/-- A typed combiner (`Model/Combiners.lean`, the literal models of C06) seen as a `Val`-level one: input
+    values are decoded with `decV`, the accumulator travels encoded (`encA`, read back with `decA`), the
+    output is encoded with `encO`. With `decA (encA a) = a` every law of the typed combiner transfers
+    (`Proofs/CombTransfer.lean`). -/
+def Combiner.toVal {V A O : Type} (decV : Val → V) (encA : A → Val) (decA : Val → A) (encO : O → Val)
+    (t : Combiner V A O) : VCombiner where
+  create := encA t.create
+  add a v := encA (t.add (decA a) (decV v))
+  merge a b := encA (t.merge (decA a) (decA b))
+  finish a := encO (t.finish (decA a))
+  build xs := encA (t.build (xs.map decV))
 
-def sortVals (xs : List Val) : List Val := xs.foldl (fun acc x => insertSorted x acc) []
-
-/-- keep the `k` largest of an ascending list -/
-def keepLargest (k : Nat) (asc : List Val) : List Val := asc.drop (asc.length - k)
+/-- the real `TopK<V>` (C06's literal model `topKBy`: `BinaryHeap<Reverse<V>>` = ascending list, the
+    `len₁ + len₂ ≤ k` extend path and the two-pointer merge, `finish` = descending `Vec`,
+    `build_from_group` = the push / pop-if-larger-than-k loop) over the harness order `V: Ord` = `Val.le`;
+    the heap travels as the `Val` list of its ascending contents -/
+def topKVal (k : Nat) : VCombiner :=
+  Combiner.toVal id Val.ofList Val.toList Val.ofList (Combiners.topKBy Val.le k)
 
 def minAdd (acc v : Val) : Val :=
   match acc with
@@ -125,13 +136,7 @@ def Comb.toCombiner : Comb → VCombiner
     { create := .nil, add := fun a v => ofList (setInsert a.toList v),
       merge := fun a b => if a.toList.isEmpty then b else ofList (b.toList.foldl setInsert a.toList),
       finish := id, build := fun xs => ofList (xs.foldl setInsert []) }
-  | .topK k =>
-    -- the min-heap as an ascending list of at most `k` elements (spec level; the literal two-pointer
-    -- merge is modelled and proved equal to this in C06)
-    { create := .nil, add := fun a v => ofList (keepLargest k (insertSorted v a.toList)),
-      merge := fun a b => ofList (keepLargest k (sortVals (a.toList ++ b.toList))),
-      finish := fun a => ofList a.toList.reverse,
-      build := fun xs => ofList (xs.foldl (fun h v => keepLargest k (insertSorted v h)) []) }
+  | .topK k => topKVal k
 
 /-! ## steps -/
 
